@@ -33,7 +33,18 @@ def run(chk, prog):
             if p and (t == ("call", ("attr", H, "handles"), (prim,), ()) or (is_t(t, "bool") and t[1] == "and" and ("call", ("attr", H, "handles"), (prim,), ()) in t[2])):
                 return True
         return False
-    sk = check_loop(chk, "eval_jaxpr_incremental", r, where, const_wrap=lambda t: t == dc("no_change", P("consts")), invar_value=lambda t: t == dc("tree_diff", P("primals"), P("tangents")), dispatch_ok=guard)
+    def out_wrap(el, body):
+        """a function returning a Python / 0-d constant has Literal outvars, which Environment.read returns raw: every output must leave as a Diff"""
+        exp = "[v if isinstance(v, Diff) else Diff(v, NoChange) for v in safe_map(env.read, jaxpr.outvars)] - Literal outputs tagged NoChange, tagged outputs untouched"
+        if body is None:
+            return False, exp
+        noc = [x for x in subterms(body) if is_t(x, "global") and x[1].endswith("NoChange")]
+        if not noc:
+            return False, exp
+        wrapped = ("ctor", "Diff", (el, noc[0]), ())
+        test = ("isinst", el, "Diff")
+        return body in (("phi", ("un", "not", test), wrapped, el), ("phi", test, el, wrapped)), exp
+    sk = check_loop(chk, "eval_jaxpr_incremental", r, where, const_wrap=lambda t: t == dc("no_change", P("consts")), invar_value=lambda t: t == dc("tree_diff", P("primals"), P("tangents")), dispatch_ok=guard, out_wrap=out_wrap)
     # literals / un-tagged values wrapped NoChange before use
     if sk:
         fams = [x for x in subterms(sk["outvals"]) if is_t(x, "fam") and is_call(x[1], "safe_map")]
